@@ -163,11 +163,11 @@ def check_iter(case, r):
         if ch in '\r\n':
             p = len(text[:i].encode('utf-8'))
             if ch == '\n':
-                fn = [p, '\n', 1]
+                fn = [p, '\n', 1, 1, '\n']
             elif text[i + 1:i + 2] == '\n':
-                fn = [p, '\r\n', 2]
+                fn = [p, '\r\n', 2, 2, '\r\n']
             else:
-                fn = [p, '\r', 1]
+                fn = [p, '\r', 1, 1, '\r']
             break
     if r['find_newline'] != fn:
         return Failure('find_newline', text=text, got=r['find_newline'], expected=fn)
